@@ -44,6 +44,16 @@ CHECKS = [
         "note": "trusted: ref/expr.py semantics table; renderer/parser self-check on every tree; non-integer and >64 exponents and min/max of singleton non-rational sets are outside the compared space",
     },
     {
+        "property_id": "C05",
+        "level": "exploration",
+        "design_ref": "DESIGN.md 4/C05",
+        "technique": "exhaustive enumeration of valid skeletons x rule-violation catalogue (singles, compatible pairs, products of boundary-inside instances) against a conjunctive validity predicate",
+        "text": "10 valid skeletons x a ~470-instance catalogue holding, for every static rule of the property, the values just inside and just outside the "
+        "boundary; every single instance on every applicable skeleton, every compatible pair of a 59-entry sub-catalogue (masking), and products of inside "
+        "instances (the accept direction). Accepted iff every applied instance is an inside instance; every rejection must be InvalidDefinitionError.",
+        "note": "trusted: the inside/outside labels of the catalogue (c05.py) and the slot-independence table used for pairs",
+    },
+    {
         "property_id": "C06",
         "level": "exploration",
         "design_ref": "DESIGN.md 4/C06",
